@@ -1,2 +1,206 @@
+/-
+Frame-level CRC lemmas for C04: the grammar's CRC equation for accepted frames, the behaviour of an
+error pattern (`xorBytes`) on the frame header, and byte-aligned bursts. Core Lean only in this file.
+-/
 import Rscp.Props.C03
 import Rscp.Lemmas.CrcOrder
+namespace Rscp.Lemmas.CrcFrame
+open Rscp Rscp.Model Rscp.Crc
+
+/-- what the grammar guarantees about an accepted frame that announces a checksum -/
+theorem spec_crc (p : List Byte) (ms : List Msg) (h : Spec.specDecode p = some ms)
+    (hc : (leNat ((p.drop 2).take 2) >>> 12) &&& 1 = 1) :
+    18 + leNat ((p.drop 16).take 2) + 4 ≤ p.length ∧
+    leNat ((p.drop (18 + leNat ((p.drop 16).take 2))).take 4) =
+      crc32 (p.take (18 + leNat ((p.drop 16).take 2))) := by
+  unfold Spec.specDecode at h
+  simp only [hc, if_true] at h
+  split at h
+  · cases h
+  split at h
+  · cases h
+  split at h
+  · cases h
+  split at h
+  · cases h
+  split at h
+  · cases h
+  split at h
+  · cases h
+  split at h
+  · cases h
+  split at h
+  · rename_i h2 _ _ _ _ h7
+    simp only [Spec.frameHeaderSize, Spec.crcSize] at h2 h7
+    exact ⟨by omega, h7⟩
+  · cases h
+
+/-- the decoder-level form: C03 turns acceptance into the grammar's CRC equation -/
+theorem crc_gate (p : List Byte) (hlen : 32 ≤ p.length) (hmod : p.length % 32 = 0) (ms : List Msg)
+    (h : decodeFrame p = .ok ms) (hc : (leNat ((p.drop 2).take 2) >>> 12) &&& 1 = 1) :
+    18 + leNat ((p.drop 16).take 2) + 4 ≤ p.length ∧
+    Valid (p.take (18 + leNat ((p.drop 16).take 2))) ((p.drop (18 + leNat ((p.drop 16).take 2))).take 4) := by
+  obtain ⟨h1, h2⟩ := spec_crc p ms ((Props.C03.accept_iff_wf p hlen hmod ms).mp h) hc
+  refine ⟨h1, ?_, h2⟩
+  rw [List.length_take, List.length_drop]; omega
+
+theorem getD_getElem (l : List Byte) (i : Nat) (h : i < l.length) : l.getD i 0 = l[i] :=
+  (List.getElem_eq_getD 0).symm
+
+theorem xorBytes_length (p e : List Byte) (h : e.length = p.length) : (xorBytes p e).length = p.length := by
+  simp [xorBytes, h]
+
+/-- where the error pattern is zero the bytes are unchanged -/
+theorem xorBytes_window (p e : List Byte) (j k : Nat) (hl : e.length = p.length)
+    (hz : ∀ i, j ≤ i → i < j + k → e.getD i 0 = 0) :
+    ((xorBytes p e).drop j).take k = (p.drop j).take k := by
+  apply List.ext_getElem
+  · simp [xorBytes, hl]
+  · intro i h1 h2
+    have h3 : i < k ∧ j + i < p.length := by
+      rw [List.length_take, List.length_drop] at h2; omega
+    have h4 : j + i < e.length := by omega
+    have h5 : e[j + i] = 0 := by
+      have := hz (j + i) (by omega) (by omega)
+      rwa [getD_getElem _ _ h4] at this
+    simp only [List.getElem_take, List.getElem_drop, xorBytes, List.getElem_zipWith, h5, UInt8.xor_zero]
+
+/-- An accepted checksummed frame, altered by an error pattern that leaves magic, control word, length field
+    and the padding alone, is rejected with an error whenever the CRC detects the pattern. -/
+theorem altered_rejected (p e : List Byte) (hlen : 32 ≤ p.length) (hmod : p.length % 32 = 0) (ms : List Msg)
+    (h : decodeFrame p = .ok ms) (hc : (leNat ((p.drop 2).take 2) >>> 12) &&& 1 = 1)
+    (hel : e.length = p.length)
+    (hz : ∀ i, (i < 4 ∨ i = 16 ∨ i = 17 ∨ 18 + leNat ((p.drop 16).take 2) + 4 ≤ i) → e.getD i 0 = 0)
+    (hdet : Valid (p.take (18 + leNat ((p.drop 16).take 2))) ((p.drop (18 + leNat ((p.drop 16).take 2))).take 4) →
+      ¬ Valid
+        ((xorBytes (p.take (18 + leNat ((p.drop 16).take 2)) ++ (p.drop (18 + leNat ((p.drop 16).take 2))).take 4)
+            (e.take (18 + leNat ((p.drop 16).take 2) + 4))).take (p.take (18 + leNat ((p.drop 16).take 2))).length)
+        ((xorBytes (p.take (18 + leNat ((p.drop 16).take 2)) ++ (p.drop (18 + leNat ((p.drop 16).take 2))).take 4)
+            (e.take (18 + leNat ((p.drop 16).take 2) + 4))).drop (p.take (18 + leNat ((p.drop 16).take 2))).length)) :
+    ∃ err, decodeFrame (xorBytes p e) = .err err := by
+  obtain ⟨hfs, hv⟩ := crc_gate p hlen hmod ms h hc
+  have hl' : (xorBytes p e).length = p.length := xorBytes_length p e hel
+  have hctrl : ((xorBytes p e).drop 2).take 2 = (p.drop 2).take 2 :=
+    xorBytes_window p e 2 2 hel (by intro i h1 h2; apply hz; omega)
+  have hL : ((xorBytes p e).drop 16).take 2 = (p.drop 16).take 2 :=
+    xorBytes_window p e 16 2 hel (by intro i h1 h2; apply hz; omega)
+  cases hd : decodeFrame (xorBytes p e) with
+  | err x => exact ⟨x, rfl⟩
+  | panic => exact absurd hd (Props.C03.decode_total ({} : Model.RState) Model.Reachable.init (xorBytes p e))
+  | ok ms' =>
+    exfalso
+    obtain ⟨_, hv'⟩ := crc_gate (xorBytes p e) (by rw [hl']; exact hlen) (by rw [hl']; exact hmod) ms' hd
+      (by rw [hctrl]; exact hc)
+    rw [hL] at hv'
+    apply hdet hv
+    generalize leNat ((p.drop 16).take 2) = L at *
+    have e1 : xorBytes (p.take (18 + L) ++ (p.drop (18 + L)).take 4) (e.take (18 + L + 4)) =
+        (xorBytes p e).take (18 + L + 4) := by
+      rw [← List.take_add, xorBytes, xorBytes, List.take_zipWith]
+    have e2 : (p.take (18 + L)).length = 18 + L := by rw [List.length_take]; omega
+    rw [e1, e2, List.take_take, List.drop_take, Nat.min_eq_left (by omega), Nat.add_sub_cancel_left]
+    exact hv'
+
+/-! ### byte-aligned bursts -/
+
+theorem byteBits_zero : byteBits 0 = List.replicate 8 false := by decide
+
+theorem bitsOf_replicate_zero (n : Nat) : bitsOf (List.replicate n 0) = List.replicate (8 * n) false := by
+  induction n with
+  | zero => rfl
+  | succ n ih =>
+    rw [List.replicate_succ, bitsOf, ih, byteBits_zero, List.replicate_append_replicate]
+    congr 1; omega
+
+theorem byteBits_ne_zero (b : Byte) (h : b ≠ 0) : true ∈ byteBits b := by
+  apply Classical.byContradiction
+  intro hn
+  apply h
+  apply UInt8.toNat_inj.mp
+  apply Nat.eq_of_testBit_eq
+  intro i
+  rw [UInt8.toNat_zero, Nat.zero_testBit]
+  by_cases hi : i < 8
+  · cases hb : b.toNat.testBit i with
+    | false => rfl
+    | true =>
+      exfalso; apply hn
+      rw [byteBits, List.mem_map]
+      exact ⟨i, List.mem_range.mpr hi, hb⟩
+  · exact Nat.testBit_lt_two_pow (Nat.lt_of_lt_of_le b.toNat_lt (Nat.pow_le_pow_right (by decide) (Nat.le_of_not_lt hi)))
+
+theorem bitsOf_mem_true (l : List Byte) (b : Byte) (hb : b ∈ l) (h : b ≠ 0) : true ∈ bitsOf l := by
+  induction l with
+  | nil => cases hb
+  | cons a r ih =>
+    rw [bitsOf, List.mem_append]
+    rcases List.mem_cons.mp hb with rfl | hb
+    · exact Or.inl (byteBits_ne_zero _ h)
+    · exact Or.inr (ih hb)
+
+theorem all_zero (l : List Byte) (h : ∀ i, l.getD i 0 = 0) : l = List.replicate l.length 0 := by
+  apply List.ext_getElem
+  · simp
+  · intro i h1 h2
+    have := h i
+    rw [getD_getElem _ _ h1] at this
+    simp [this]
+
+/-- a non-zero byte pattern confined to 4 consecutive bytes is a burst of at most 32 bits -/
+theorem bytes_burst (e : List Byte) (k : Nat) (hk : ∀ i, (i < k ∨ k + 4 ≤ i) → e.getD i 0 = 0)
+    (hne : ∃ i, e.getD i 0 ≠ 0) : IsBurst (bitsOf e) := by
+  obtain ⟨i, hi⟩ := hne
+  have hik : k ≤ i ∧ i < k + 4 := by
+    refine ⟨Nat.le_of_not_lt fun h => hi (hk i (Or.inl h)), Nat.lt_of_not_le fun h => hi (hk i (Or.inr h))⟩
+  have hil : i < e.length := by
+    apply Nat.lt_of_not_le
+    intro h
+    apply hi
+    rw [List.getD_eq_getElem?_getD, List.getElem?_eq_none h]; rfl
+  have hsplit : e = e.take k ++ ((e.drop k).take 4 ++ e.drop (k + 4)) := by
+    rw [← List.drop_drop, List.take_append_drop, List.take_append_drop]
+  have h1 : e.take k = List.replicate k 0 := by
+    have := all_zero (e.take k) (by
+      intro j
+      rw [List.getD_eq_getElem?_getD, List.getElem?_take]
+      split
+      · rw [← List.getD_eq_getElem?_getD]; exact hk j (Or.inl ‹_›)
+      · rfl)
+    rw [this, List.length_take, Nat.min_eq_left (by omega)]
+  have h3 : e.drop (k + 4) = List.replicate (e.length - (k + 4)) 0 := by
+    have := all_zero (e.drop (k + 4)) (by
+      intro j
+      rw [List.getD_eq_getElem?_getD, List.getElem?_drop, ← List.getD_eq_getElem?_getD]
+      exact hk _ (Or.inr (by omega)))
+    rw [this, List.length_drop]
+  refine ⟨8 * k, bitsOf ((e.drop k).take 4), 8 * (e.length - (k + 4)), ?_, ?_, ?_⟩
+  · conv => lhs; rw [hsplit]
+    rw [bitsOf_append, bitsOf_append, h1, h3, bitsOf_replicate_zero, bitsOf_replicate_zero, List.append_assoc]
+  · rw [bitsOf_length, List.length_take]; omega
+  · apply bitsOf_mem_true _ e[i] _ (by rwa [getD_getElem _ _ hil] at hi)
+    rw [List.mem_iff_getElem]
+    refine ⟨i - k, by rw [List.length_take, List.length_drop]; omega, ?_⟩
+    rw [List.getElem_take, List.getElem_drop]
+    congr 1; omega
+
+/-- the restriction of such a pattern to the checksummed part of the frame -/
+theorem bytes_burst_take (e : List Byte) (n k : Nat) (hz : ∀ i, n ≤ i → e.getD i 0 = 0)
+    (hk : ∀ i, (i < k ∨ k + 4 ≤ i) → e.getD i 0 = 0) (hne : ∃ i, e.getD i 0 ≠ 0) :
+    IsBurst (bitsOf (e.take n)) := by
+  have hget : ∀ i, (e.take n).getD i 0 = if i < n then e.getD i 0 else 0 := by
+    intro i
+    rw [List.getD_eq_getElem?_getD, List.getElem?_take]
+    split
+    · rw [← List.getD_eq_getElem?_getD]
+    · rfl
+  apply bytes_burst (e.take n) k
+  · intro i hi
+    rw [hget]; split
+    · exact hk i hi
+    · rfl
+  · obtain ⟨i, hi⟩ := hne
+    refine ⟨i, ?_⟩
+    rw [hget, if_pos (Nat.lt_of_not_le fun h => hi (hz i h))]
+    exact hi
+
+end Rscp.Lemmas.CrcFrame
